@@ -311,6 +311,81 @@ def gen_crash(ctx, hcmd):
     return runs
 
 
+# ---------------------------------------------------------------------------------------
+# deep states: an operation-atomic history (several laps of the ring, stale headers of earlier laps
+# in the slots) followed by the systematic exploration of the last writer operation against the
+# next reader operations, and the writer dying at every step of that last operation
+# ---------------------------------------------------------------------------------------
+
+def gen_histories(ctx, count):
+    """(N, writer program, reader program, operation-level order) — the reader mostly keeps up, so
+    the writer turns around often, at many different slots, over slots that held headers before"""
+    rng = ctx.rng
+    res = []
+    for _ in range(count):
+        N = rng.choice([8, 8, 16, 16, 16, 32, 4])
+        half = N // 2
+        ks = [k for k in (3, 3, 4, 5, 6, 7, half - 1) if 3 <= k <= max(3, half - 1)]
+        wprog, order, pending = [], [], 0
+        nw = rng.randint(4, 22)
+        while len(wprog) < nw:
+            burst = rng.choice([1, 1, 2, 3])
+            for _ in range(burst):
+                wprog.append("a%d" % bytes_for(rng.choice(ks), rng))
+                order.append(0)
+                pending += 1
+            take = pending if rng.random() < 0.75 else rng.randint(0, pending)
+            order += [1] * take
+            pending -= take
+        # the tail: one more writer operation against two more reader operations
+        last = rng.choice(ks + [half - 1, half - 1]) if half - 1 >= 3 else 3
+        wprog.append("a%d" % bytes_for(max(3, last), rng))
+        nreads = sum(1 for t in order if t == 1)
+        rprog = ["f"] * (nreads + 2)
+        res.append((N, wprog, rprog, order))
+    return res
+
+
+def deep_tail(ctx, hcmd, dcmd):
+    from concurrent.futures import ThreadPoolExecutor
+    q = ctx.quick
+    hist = gen_histories(ctx, 120 if q else 1500)
+    confs = [["conf %d 0" % (N * 64), "thr " + " ".join(w), "thr " + " ".join(r)] for N, w, r, o in hist]
+    first = vlib.run_cases(hcmd, [c + ["sched opseq " + " ".join(map(str, o)), "run"]
+                                  for c, (N, w, r, o) in zip(confs, hist)])
+    jobs = []
+    for c, (N, w, r, o), a in zip(confs, hist, first):
+        sched = next((l.split()[1:] for l in a["out"] if l.startswith("schedule ")), None)
+        k = next((int(l.split()[1]) for l in a["out"] if l.startswith("#opseq-steps")), None)
+        if a["crash"] or sched is None or k is None:
+            continue
+        jobs.append((c, N, sched[:k], sched))
+    runs = []
+    stats = {"histories": len(jobs), "tail_schedules": 0, "exhausted": 0, "writer_crash_points": 0}
+
+    def explore(job):
+        c, N, pre, full = job
+        g = vlib.explore_schedules(hcmd, c, 2, max_runs=250 if q else 1500, start_prefix=pre, workers=1)
+        out = [{"conf": c, "sched": "replay " + " ".join(s), "kind": "deep-tail", "wf": True, "N": N} for s, _ in g]
+        return out, g.exhausted
+    with ThreadPoolExecutor(vlib.NPROC) as ex:
+        for out, exh in ex.map(explore, jobs):
+            runs += out
+            stats["tail_schedules"] += len(out)
+            stats["exhausted"] += bool(exh)
+    # the writer dies before each step of its last operation; the reader then runs on alone
+    for c, N, pre, full in jobs:
+        w0 = sum(1 for t in pre if t == "0")
+        wtail = sum(1 for t in full[len(pre):] if t == "0")
+        for j in range(0, wtail + 1, 1 if q and wtail <= 12 or not q else 2):
+            runs.append({"conf": c + ["kill 0 %d" % (w0 + j), "maxsteps 3000"],
+                         "sched": "prefix " + " ".join(pre + ["0"] * j), "kind": "deep-crash", "wf": True,
+                         "N": N, "kill": 1})
+            stats["writer_crash_points"] += 1
+    ctx.cov["deep_tail"] = stats
+    vlib.conc_correspondence(ctx, hcmd, dcmd, runs, judge=judge, label="tieC_deep_tail", escalate=False)
+
+
 def load_corpus():
     d = os.path.join(vlib.VERIF, "corpus", "C08")
     runs = []
@@ -514,7 +589,7 @@ def judge_literal(run, out):
 def literal_probes(ctx, hcmd, dcmd):
     runs = gen_literal_probes()
     # model == implementation and the ordinary oracle (which only knows the N/2-1 bound) on the same runs
-    vlib.conc_correspondence(ctx, hcmd, dcmd, runs, judge=judge, label="tieB_literal_no_wedge_probes")
+    vlib.conc_correspondence(ctx, hcmd, dcmd, runs, judge=judge, label="tieB_literal_no_wedge_probes", escalate=False)
     outs = vlib.run_cases(hcmd, [r["conf"] + ["sched " + r["sched"], "run"] for r in runs])
     stats = {}
     first = None
@@ -585,11 +660,10 @@ def main(ctx):
     except vlib.BuildError as e:
         ctx.broken.append("harness-build: " + str(e)[:500])
         return
-    corpus = load_corpus()
-    if corpus:
-        vlib.conc_correspondence(ctx, hcmd, dcmd, corpus, judge=judge, label="corpus")
+    # (the families that escalate into a long search when only the trace tie breaks come after the
+    # directed ones: the search is skipped once a concrete failing input is known)
     seq = gen_sequential(ctx)
-    vlib.conc_correspondence(ctx, hcmd, dcmd, seq, judge=judge, label="tieB_sequential")
+    vlib.conc_correspondence(ctx, hcmd, dcmd, seq, judge=judge, label="tieB_sequential", escalate=False)
     # measured (not planned) coverage: (write cursor, read cursor, marker slot) positions the real code
     # went through in the position-directed histories
     reach = [r for r in seq if r["kind"] == "seq-reach"]
@@ -600,8 +674,12 @@ def main(ctx):
     ctx.cov["sequential_positions_visited"] = {str(n): len(v) for n, v in sorted(visited.items())}
     ctx.cov["sequential_marker_slots_visited"] = {
         str(n): sorted({p[2] for p in v if p[2] is not None}) for n, v in sorted(visited.items())}
-    vlib.conc_correspondence(ctx, hcmd, dcmd, gen_malformed(ctx), judge=judge, label="tieB_malformed")
+    vlib.conc_correspondence(ctx, hcmd, dcmd, gen_malformed(ctx), judge=judge, label="tieB_malformed", escalate=False)
     literal_probes(ctx, hcmd, dcmd)
+    deep_tail(ctx, hcmd, dcmd)
+    corpus = load_corpus()
+    if corpus:
+        vlib.conc_correspondence(ctx, hcmd, dcmd, corpus, judge=judge, label="corpus")
     vlib.conc_correspondence(ctx, hcmd, dcmd, gen_concurrent(ctx), judge=judge, label="tieC_random")
     vlib.conc_correspondence(ctx, hcmd, dcmd, gen_crash(ctx, hcmd), judge=judge, label="tieC_writer_crash")
     sys_runs, exh = [], {}
